@@ -26,9 +26,10 @@ RULE = (
     "the tier are enumerated (all boolean matrices up to 3x3, p in {0,0.5,1}, every answer of the binomial draw). "
     "For each scenario the tree of RNG answers (np.random.binomial, np.random.choice, pandas group sample -> choice "
     "points) is explored by stateless DFS with the real builder, completely when the tree has at most the tier's cap "
-    "of leaves, otherwise every path with <=2 (or <=1, see bounds) non-default answers around several default "
-    "policies. state = canonical edge table after the call (distinct digests), transition = one real builder "
-    "execution. An outcome is non-trivial if the call returned and its edge table digest is new"
+    "of leaves, otherwise every path with at most max_dev non-default answers (2, or 1 / 0 where the notes say so) "
+    "around each default policy (first / last / cycle through the domain). state = canonical edge table after the "
+    "call (distinct digests), transition = one real builder execution. An outcome is non-trivial if the call "
+    "returned and its edge table digest is new"
 )
 REQUIRED_COVER = [
     "n_pre_ne_n_post",
@@ -135,13 +136,13 @@ MATRIX_POPS = {
         ("A", [3, 1], [2]),
         ("A", [2], [3, 0, 1]),
         ("A", [3, 0, 1], [2]),
-        ("A", [1, 0], [3, 2]),
         ("A", [0, 1], [3, 1]),
         ("A", [0, 3], [1, 0, 3]),
         ("A", [2, 3, 1], [3, 0]),
         ("B", [3, 0, 2], [1, 4, 0]),
     ],
     "thorough": [
+        ("A", [1, 0], [3, 2]),
         ("A", [1], [1]),
         ("A", [3, 0], [0, 3]),
         ("B", [1, 0], [2, 3, 4]),
@@ -158,13 +159,13 @@ TIER = {
     # policies: default-answer policies around which the deviation-bounded jobs explore (per builder)
     # item: target cost of a work item in seconds (cost model: COST)
     "quick": {
-        "cap_complete": {"fully": 100, "sparse": 100},
+        "cap_complete": {"fully": 100, "sparse": 50},
         "cap_dev2": {"fully": 100, "sparse": 40},
         "policies": {"fully": ["first", "cycle"], "sparse": ["cycle"]},
         # matrices: (shape size r*c up to, cap_complete, max_dev beyond the cap, policies)
         "matrix_rule": [(4, 100, 2, ["first", "last"]), (6, 8, 1, ["first"]), (9, 1, 0, ["cycle"])],
         "p1_defaults_only_from": 6,
-        "item": 8.0,
+        "item": 6.0,
         "forward_seeds": [0, 1],
     },
     "thorough": {
@@ -552,6 +553,27 @@ def make_sig(scn, rule, trace, extra):
     return sig
 
 
+def describe_network(scn):
+    return {
+        "cells": [{"parents": list(p), "ncomps": list(n)} for p, n in NETS[scn["net"]]],
+        "edges_before_call": [
+            {"pre": f"cell({a}).branch(0).comp(0)", "post": f"cell({b}).branch(0).comp(0)",
+             "synapse": scn["syn"] if w == "same" else other_syn(scn["syn"])}
+            for a, b, w in PRIORS[scn["prior"]]
+        ],
+    }
+
+
+def make_witness(scn, oracle):
+    """Network description + call + the recorded answer of every choice point."""
+    return {
+        "scn": scn,
+        "network": describe_network(scn),
+        "answers": oracle.answers(),
+        "draws": [{"draw": p.label, "domain_size": p.n, "answer": p.answer, "value": p.value} for p in oracle.trace],
+    }
+
+
 def run_once(scn, prefix, policy="first"):
     o = choices.Oracle(prefix, policy)
     net, before, exc = execute(scn, o)
@@ -702,8 +724,8 @@ def scenarios(tier):
                 for p in PS:
                     if vi >= 1 and (p != 0.5 or len(pre) * len(post) > 4):
                         continue
-                    if net == "B" and len(pre) == 3:
-                        continue  # quick tier: sparse 3x2 / 3x3 on network A only
+                    if (net == "B" and len(pre) == 3) or (pre, post) == ([0, 1, 2], [3, 2, 1]):
+                        continue  # quick tier: sparse 3x2 on network A only, 3x3 on one pair of populations
                     scns.append(_scn(net, prior, syn, "sparse", pre, post, view, p=p))
         mpops = MATRIX_POPS["quick"]
         mvariants = [VARIANTS_QUICK[1]]
@@ -742,7 +764,7 @@ def forward_scenarios(tier):
     """Scenarios of the self test 'the proxy sees every draw and answers like the real generator'."""
     out = []
     for net, pre, post in [("A", [1, 0], [3, 2]), ("A", [0, 3], [1, 0, 3]), ("B", [3, 0, 2], [1, 4, 0])]:
-        for view, prior, syn in VARIANTS_QUICK[:2] if tier == "quick" else VARIANTS_QUICK:
+        for view, prior, syn in VARIANTS_QUICK[1:2] if tier == "quick" else VARIANTS_QUICK:
             out.append(_scn(net, prior, syn, "fully", pre, post, view))
             out.append(_scn(net, prior, syn, "sparse", pre, post, view, p=0.5))
             m = [(i * 7 + 3) % 3 != 0 for i in range(len(pre) * len(post))]
@@ -826,7 +848,7 @@ def _add_violation(out, seen, scn, o, rule, msg, extra):
     sig = make_sig(scn, rule, o.trace, extra)
     key = digest(sig)
     seen[key] = seen.get(key, 0) + 1
-    wit = {"scn": scn, "answers": o.answers()}
+    wit = make_witness(scn, o)
     cands = out["_viol"].setdefault(key, [])
     cands.append({"sig": sig, "witness": wit, "msg": msg})
     cands.sort(key=lambda v: (len(v["witness"]["answers"]), sum(v["witness"]["answers"])))
@@ -864,8 +886,10 @@ def _work_job(job, out, seen):
             o = choices.Oracle(prefix, policy)
             try:
                 net, before, exc = execute(scn, o)
-            except choices.PrefixOutOfDomain as e:  # the planner's root does not exist in the real tree
-                box["last"] = (o, None, None, e)
+            except choices.PrefixOutOfDomain as e:
+                if len(o.trace) >= len(root):
+                    raise  # an answer chosen by the explorer itself must exist: nondeterminism outside the oracle
+                box["last"] = (o, None, None, e)  # the planner's root does not exist in the real tree
                 return o.trace, "invalid_root"
             box["last"] = (o, net, before, exc)
             return o.trace, None
@@ -918,12 +942,16 @@ def _work_forward(item, out, seen):
     and the oracle consumed exactly as much of the random stream as the un-intercepted call (it sees every draw)."""
     for scn in item["scns"]:
         T = tabs(scn["net"])
-        for seed in item["seeds"]:
-            # un-intercepted reference run on a freshly built network with the real global generator
+        for si, seed in enumerate(item["seeds"]):
+            # un-intercepted reference run with the real global generator; the first seed uses a freshly built
+            # network (not the pickled base), so that the pickle round trip of the base is covered as well
             keep = np.random.get_state()
             try:
                 np.random.seed(seed)
-                ref = build_base(scn["net"], scn["prior"], scn["syn"])
+                if si == 0:
+                    ref = build_base(scn["net"], scn["prior"], scn["syn"])
+                else:
+                    ref = pickle.loads(base_bytes(scn["net"], scn["prior"], scn["syn"]))
                 exc_ref = None
                 try:
                     call_builder(ref, scn, T, syn_obj(scn["syn"]))
@@ -955,6 +983,8 @@ def _work_forward(item, out, seen):
 
 def replay(w):
     scn = w["scn"]
+    if "network" in w and w["network"] != describe_network(scn):
+        raise choices.HarnessError("the witness was recorded for another network catalogue")
     o = choices.Oracle(w["answers"], "first")
     net, before, exc = execute(scn, o)
     if o.answers()[: len(w["answers"])] != list(w["answers"])[: len(o.trace)]:
